@@ -5,6 +5,7 @@ import (
 	"go/ast"
 	"go/token"
 	"go/types"
+	"golang.org/x/tools/go/packages"
 	"strconv"
 	"strings"
 
@@ -110,7 +111,7 @@ func C14bristol(p *load.Program, run *report.Run) {
 	})
 	// arity in Marshal: number of uint32(...) wire conversions in the arm's literal minus the output
 	arityM := map[string]int64{}
-	ast.Inspect(fdM.Body, func(n ast.Node) bool {
+	inspectWithHelpers(p, pkg, fdM, func(n ast.Node) bool {
 		cc, ok := n.(*ast.CaseClause)
 		if !ok || len(caseNames(cc)) == 0 {
 			return true
@@ -129,7 +130,7 @@ func C14bristol(p *load.Program, run *report.Run) {
 	})
 	// arity in ParseMPCLC: Input fields of the struct the arm reads
 	arityPM := map[string]int64{}
-	ast.Inspect(fdPM.Body, func(n ast.Node) bool {
+	inspectWithHelpers(p, pkg, fdPM, func(n ast.Node) bool {
 		cc, ok := n.(*ast.CaseClause)
 		if !ok || len(caseNames(cc)) == 0 {
 			return true
@@ -187,7 +188,7 @@ func C14gaterecord(p *load.Program, run *report.Run) {
 	}
 	// writer: per arm, the g.<Field> sequence
 	written := map[string][]string{}
-	ast.Inspect(fdM.Body, func(n ast.Node) bool {
+	inspectWithHelpers(p, pkg, fdM, func(n ast.Node) bool {
 		cc, ok := n.(*ast.CaseClause)
 		if !ok || len(caseNames(cc)) == 0 {
 			return true
@@ -210,7 +211,7 @@ func C14gaterecord(p *load.Program, run *report.Run) {
 		mapping map[string]string // Gate field -> record field
 	}
 	read := map[string]rd{}
-	ast.Inspect(fdP.Body, func(n ast.Node) bool {
+	inspectWithHelpers(p, pkg, fdP, func(n ast.Node) bool {
 		cc, ok := n.(*ast.CaseClause)
 		if !ok || len(caseNames(cc)) == 0 {
 			return true
@@ -275,7 +276,7 @@ func C14gaterecord(p *load.Program, run *report.Run) {
 	// header: five uint32 in a row
 	run.Rule("header-field-order", "Marshal writes magic, gate count, wire count, input count, output count in the order in which ParseMPCLC's header struct declares them, and the parser builds the circuit from the fields of the same meaning")
 	var hdr []string
-	ast.Inspect(fdM.Body, func(n ast.Node) bool {
+	inspectWithHelpers(p, pkg, fdM, func(n ast.Node) bool {
 		cl, ok := n.(*ast.CompositeLit)
 		if !ok || len(hdr) > 0 || len(cl.Elts) != 5 {
 			return true
@@ -298,7 +299,7 @@ func C14gaterecord(p *load.Program, run *report.Run) {
 		return true
 	})
 	var decl []string
-	ast.Inspect(fdP.Body, func(n ast.Node) bool {
+	inspectWithHelpers(p, pkg, fdP, func(n ast.Node) bool {
 		if st, ok := n.(*ast.StructType); ok && len(decl) == 0 && len(st.Fields.List) == 5 {
 			for _, f := range st.Fields.List {
 				for _, nm := range f.Names {
@@ -310,7 +311,7 @@ func C14gaterecord(p *load.Program, run *report.Run) {
 	})
 	// the variable of that struct type
 	hdrVar := ""
-	ast.Inspect(fdP.Body, func(n ast.Node) bool {
+	inspectWithHelpers(p, pkg, fdP, func(n ast.Node) bool {
 		if vs, ok := n.(*ast.ValueSpec); ok && hdrVar == "" && len(vs.Names) == 1 {
 			if st, ok := vs.Type.(*ast.StructType); ok && len(st.Fields.List) == 5 {
 				hdrVar = vs.Names[0].Name
@@ -319,7 +320,7 @@ func C14gaterecord(p *load.Program, run *report.Run) {
 		return true
 	})
 	uses := map[string]string{} // Circuit field -> header field
-	ast.Inspect(fdP.Body, func(n ast.Node) bool {
+	inspectWithHelpers(p, pkg, fdP, func(n ast.Node) bool {
 		if cl, ok := n.(*ast.CompositeLit); ok && strings.HasSuffix(types.ExprString(cl.Type), "Circuit") {
 			for _, e := range cl.Elts {
 				if kv, ok := e.(*ast.KeyValueExpr); ok {
@@ -351,5 +352,17 @@ func unwrapConv(e ast.Expr) ast.Expr {
 			return e
 		}
 		e = c.Args[0]
+	}
+}
+
+// inspectWithHelpers walks the body of fd and the bodies of the functions of the same package it calls
+// (two levels): where a maintainer moved the per-gate switch of a codec function into a helper, the rule
+// still finds it.
+func inspectWithHelpers(p *load.Program, pkg *packages.Package, fd *ast.FuncDecl, f func(ast.Node) bool) {
+	ast.Inspect(fd.Body, f)
+	for _, ref := range calleeDecls(p, pkg, fd, 2) {
+		if ref.pkg == pkg {
+			ast.Inspect(ref.fd.Body, f)
+		}
 	}
 }
